@@ -2300,7 +2300,7 @@ V(id='c14-outward-no-extra-bits', prop='C14', file='mpmath/libmp/libmpi.py',
   old="    wp = prec + 20\n    v = f(*(args + (wp,)))", new="    wp = prec + 4\n    v = f(*(args + (wp,)))",
   expect='fire:C-R19:mpf_outward')
 V(id='c14-outward-final-rounding-nearest', prop='C14', file='mpmath/libmp/libmpi.py',
-  old="    return mpf_mul(v, p, prec, rounding)\n\ndef mpi_exp", new="    return mpf_mul(v, p, prec, round_nearest)\n\ndef mpi_exp",
+  old="    return mpf_mul(v, p, prec, rounding)\n\ndef mpc_outward", new="    return mpf_mul(v, p, prec, round_nearest)\n\ndef mpc_outward",
   expect='fire:C-R19:mpf_outward')
 V(id='c14-outward-exact-shortcut-too-wide', prop='C14', file='mpmath/libmp/libmpi.py',
   old="    if exact_at_integers:\n        sign, man, exp, bc = args[0]\n", new="    if True:\n        sign, man, exp, bc = args[0]\n",
@@ -2818,3 +2818,17 @@ V(id='c35-identify-name-error-accepts', prop='C35', file='mpmath/identification.
   old="        except (ArithmeticError, ValueError, NameError, SyntaxError,\n                TypeError):\n            return False\n",
   new="        except (ArithmeticError, ValueError):\n            return False\n        except (NameError, SyntaxError, TypeError):\n            pass\n",
   expect='fire:Q-R11:identify')
+
+# ---- C14 fourth hunt: C-R21 tiny gamma arguments on the Stirling path (fix ee509ae); C13 E-X5 / E-X6 (seeds C13-10, C13-11) ----
+V(id='c14-gamma-tiny-argument-to-fixed-point', prop='C14', file='mpmath/libmp/gammazeta.py',
+  old="    if mag < -8 and wp >= MAX_GAMMA_TAYLOR_PREC:\n        x1 = mpf_add(x, fone)\n", new="    if False and mag < -8 and wp >= MAX_GAMMA_TAYLOR_PREC:\n        x1 = mpf_add(x, fone)\n",
+  expect='fire:C-R21:mpf_gamma')
+V(id='c14-gamma-tiny-argument-rounded-shift', prop='C14', file='mpmath/libmp/gammazeta.py',
+  old="    if mag < -8 and wp >= MAX_GAMMA_TAYLOR_PREC:\n        x1 = mpf_add(x, fone)\n", new="    if mag < -8 and wp >= MAX_GAMMA_TAYLOR_PREC:\n        x1 = mpf_add(x, fone, wp)\n",
+  expect='fire:C-R21:mpf_gamma')
+V(id='c13-mod-pi2-bounded-escalation', prop='C13', file='mpmath/libmp/libelefun.py',
+  old="        i = 0\n        while 1:\n            cancellation_prec = 20 << i\n", new="        for i in xrange(6):\n            cancellation_prec = 20 << i\n",
+  expect='fire:E-X6:mod_pi2')
+V(id='c13-sqrtrem-starts-below', prop='C13', file='mpmath/libmp/libintmath.py',
+  old="    y = isqrt_fast_python(x) + 1\n", new="    y = isqrt_fast_python(x)\n",
+  expect='fire:E-X5:sqrtrem_python')
